@@ -42,6 +42,17 @@ void ezc3d::ParametersNS::GroupNS::Parameter::print() const
 
 void ezc3d::ParametersNS::GroupNS::Parameter::write(std::fstream &f, int groupIdx, std::streampos &dataStartPosition) const
 {
+    // The lengths and the dimensions are stored on one byte, the integers on two bytes
+    if (name().size() > 127 || description().size() > 255 || _dimension.size() > 7)
+        throw std::range_error("Parameter " + name() + " cannot be written: the name is limited to 127 characters, "
+                               "the description to 255 characters and the number of dimensions to 7");
+    for (size_t i=0; i<_dimension.size(); ++i)
+        if (_dimension[i] > 255)
+            throw std::range_error("Parameter " + name() + " cannot be written: a dimension is limited to 255");
+    if (_data_type == DATA_TYPE::INT)
+        for (size_t i=0; i<_param_data_int.size(); ++i)
+            if (_param_data_int[i] < -32768 || _param_data_int[i] > 32767)
+                throw std::range_error("Parameter " + name() + " cannot be written: an integer is limited to 16 bits");
     int nCharName(static_cast<int>(name().size()));
     if (isLocked())
         nCharName *= -1;
